@@ -1,5 +1,7 @@
 """C18 - printing an expression and importing the text restores it."""
 import random
+import os as _os
+REPO = _os.environ.get("VERIF_REPO", "/repo")
 
 from sympy import Symbol, sqrt, Rational
 
@@ -69,7 +71,7 @@ def names_roundtrips(chk, quick):
     import tempfile
     from . import c19
     from .. import events
-    cfg = json.load(open("/repo/adcgen/tensor_names.json"))
+    cfg = json.load(open(os.path.join(REPO, "adcgen/tensor_names.json")))
     configs = [dict(cfg, eri="Vee", fock="fk", gs_amplitude="amp",
                     orb_energy="eps", sym_orb_denom="Den", operator="op",
                     gs_density="rhoq")]
@@ -85,7 +87,7 @@ def names_roundtrips(chk, quick):
     for newcfg in configs:
         scratch = tempfile.mkdtemp(prefix="adcgen_names_")
         try:
-            shutil.copytree("/repo/adcgen", os.path.join(scratch, "adcgen"))
+            shutil.copytree(os.path.join(REPO, "adcgen"), os.path.join(scratch, "adcgen"))
             json.dump(newcfg, open(os.path.join(scratch, "adcgen",
                                                 "tensor_names.json"), "w"))
             rename = {newcfg[k]: cfg[k] for k in cfg if newcfg[k] != cfg[k]}
